@@ -904,8 +904,8 @@ class QasmVisitor:
             qasm3_ast.FloatLiteral(param) for param in self._get_op_parameters(operation)
         ]
 
-        self._push_context(Context.GATE)
-
+        # the operands of the kept call are resolved where the call stands (not in a gate context,
+        # which would hide the variables its indices may use)
         modifiers = []
         if inverse:
             modifiers = [qasm3_ast.QuantumGateModifier(qasm3_ast.GateModifierName.inv, None)]
@@ -923,7 +923,6 @@ class QasmVisitor:
         all_targets = self._unroll_multiple_target_qubits(operation, gate_qubit_count)
         result = self._broadcast_gate_operation(gate_function, all_targets)
 
-        self._restore_context()
         if self._check_only:
             return []
 
